@@ -4,5 +4,5 @@ cd /repo
 NEW=$(git cherry main "$1" | grep '^+' | cut -d' ' -f2)
 for c in $(git rev-list --reverse --topo-order main.."$1"); do
   echo "$NEW" | grep -q "$c" || continue
-  if git cherry-pick "$c" >/dev/null 2>&1; then echo "picked $(git log -1 --format='%h %s' "$c" | cut -c1-110)"; else echo "CONFLICT $c"; git status --short | grep -E "^(UU|AA|DU|UD)"; exit 1; fi
+  if git cherry-pick "$c" >/dev/null 2>&1; then echo "picked $(git log -1 --format='%h %s' "$c" | cut -c1-110)"; else echo "CONFLICT-SKIPPED $(git log -1 --format="%h %s" "$c" | cut -c1-120)"; git cherry-pick --abort; fi
 done
